@@ -301,8 +301,10 @@ func (s *swapDA) set(b backing) {
 	s.inner = b
 	s.mu.Unlock()
 }
-func (s *swapDA) GasPrice(ctx context.Context) (float64, error)      { return s.get().GasPrice(ctx) }
-func (s *swapDA) GasMultiplier(ctx context.Context) (float64, error) { return s.get().GasMultiplier(ctx) }
+func (s *swapDA) GasPrice(ctx context.Context) (float64, error) { return s.get().GasPrice(ctx) }
+func (s *swapDA) GasMultiplier(ctx context.Context) (float64, error) {
+	return s.get().GasMultiplier(ctx)
+}
 func (s *swapDA) Get(ctx context.Context, ids []coreda.ID, ns []byte) ([]coreda.Blob, error) {
 	return s.get().Get(ctx, ids, ns)
 }
@@ -503,7 +505,15 @@ func isCore(a action, thorough bool) bool {
 					return true
 				}
 			}
-			return thorough && len(a.Sizes) <= 2
+			if thorough && len(a.Sizes) <= 2 { // every list of <=2 blobs over the sizes {1, limit-1, limit}
+				for _, s := range a.Sizes {
+					if s != 1 && s != limit-1 && s != limit {
+						return false
+					}
+				}
+				return true
+			}
+			return false
 		}
 		if eqInts(a.Sizes, []int{1}) {
 			return a.Cancelled || a.Inj == "ErrTxTimedOut" || a.Inj == "context.Canceled" || a.Inj == "generic"
@@ -887,6 +897,8 @@ func TestCheck(t *testing.T) {
 		"messages and timestamps of DA results are not compared",
 	}
 	workers := runtime.NumCPU()
+	started := time.Now()
+	budget := vf.Pick(r, 90*time.Second, 15*time.Minute) // for all searches together
 
 	if r.ReplayPath() != "" {
 		var rp replay
@@ -938,7 +950,11 @@ func TestCheck(t *testing.T) {
 			break
 		}
 		for _, pre := range []string{"empty", "populated"} {
-			st := explore.BFS(explore.BFSConfig{Depth: depth, Actions: len(acts), Workers: workers, Deadline: vf.Pick(r, 90*time.Second, 18*time.Minute)}, func(hist []int) explore.Step {
+			left := budget - time.Since(started)
+			if left < time.Second {
+				left = time.Second
+			}
+			st := explore.BFS(explore.BFSConfig{Depth: depth, Actions: len(acts), Workers: workers, Deadline: left}, func(hist []int) explore.Step {
 				seq := make([]action, len(hist))
 				for i, ai := range hist {
 					seq[i] = acts[ai]
@@ -963,8 +979,17 @@ func TestCheck(t *testing.T) {
 				calls.Add(int64(res.calls))
 				lastA := seq[len(seq)-1]
 				rp := replay{Backing: kind, Pre: pre, Actions: seq}
+				// cost = length first, then the lexicographic rank of the history: the example kept per clause and per
+				// known finding is the same on every run (workers report in no particular order)
+				cost := len(hist)
+				for i := 0; i < depth; i++ {
+					cost *= len(acts)
+					if i < len(hist) {
+						cost += hist[i]
+					}
+				}
 				for _, v := range res.viols {
-					v.Cost, v.History = len(seq), rp
+					v.Cost, v.History = cost, rp
 					v.Msg += "\n history (" + kind + ", pre-state " + pre + "): " + strings.Join(res.trace, " ; ")
 					r.Report(v)
 				}
